@@ -1,6 +1,6 @@
 (* C09 -- Which units feed the model follows the documented eligibility rules exactly. *)
 From Coq Require Import ZArith QArith List Bool String.
-From Elex Require Import Model.Units Proofs.UnitsProofs.
+From Elex Require Import Model.Units Proofs.UnitsProofs Model.Estimandizer Proofs.EstimandizerProofs.
 Import ListNotations.
 
 (* the procedural pipeline (filters, isin, concat, drop_duplicates keep-first) assigns every joined unit the
@@ -74,3 +74,16 @@ Theorem C09_nan_row_zeroed : forall (p : params) (ft fm : list string) (base : l
   exists r, In r (join p ft fm base feed) /\ d_id r = b_id b /\ (d_rw r == 0)%Q /\ (d_pev r == 0)%Q.
 Proof. exact nan_row_zeroed. Qed.
 Print Assumptions C09_nan_row_zeroed.
+
+(* derived quantities (Estimandizer), compared with the implementation's columns on every modelled unit of every run:
+   the normalised margin of non-negative counts is in [-1, 1], 0 -- not NaN -- when nothing was counted, and margin = normalised
+   margin x two-party votes otherwise *)
+Theorem C09_normalised_margin_range : forall dem gop : Q, (0 <= dem -> 0 <= gop -> -1 <= dv_nmargin (margin_columns dem gop) <= 1)%Q.
+Proof. exact nmargin_range. Qed.
+Print Assumptions C09_normalised_margin_range.
+
+Theorem C09_normalised_margin_defined : forall dem gop : Q,
+  ((dem + gop == 0 -> dv_nmargin (margin_columns dem gop) == 0) /\
+   (~ dem + gop == 0 -> dv_nmargin (margin_columns dem gop) * dv_weights (margin_columns dem gop) == dv_margin (margin_columns dem gop)))%Q.
+Proof. intros dem gop. split; [apply nmargin_nothing_counted | apply nmargin_times_weights]. Qed.
+Print Assumptions C09_normalised_margin_defined.
